@@ -34,7 +34,8 @@ def run(tier):
         ops = [s["op"] for s in b["steps"]]
         return ("compact" in ops) * 2 + ("interrupt_snapshot" in ops) * 2 + ops.count("restart")
     beh.sort(key=score, reverse=True)
-    beh = beh[: (60 if quick else 1200)]
+    beh = beh[: (70 if quick else 1200)]
+    beh += sm_common.gen_mcp_thin(c, 60 if quick else 1500, c.seed)
     bf = vlib.write_ndjson(os.path.join(sc, "beh.ndjson"), beh)
     res = vlib.harness(["replay", "sm", bf, "--mode", "c01", "--jobs", 8], timeout=6000)
     summ = [r for r in res if r.get("kind") == "summary"][0]
@@ -48,17 +49,23 @@ def run(tier):
     sm_common.tv_traces(c, sc, 3 if quick else 40, 70 if quick else 250)
     c.assumptions += [
         "stop point = clean stop (700 ms settle: all acknowledged writes reached the OS); crash points are C04",
-        "spec predicts configs (content + history), namespaces, users, sequences; compared through the public "
-        "query messages; MCP / persistent instances / cache are not yet driven",
+        "spec predicts configs (content, type, description, history), namespaces, users, sequences, persistent "
+        "instances (weight, enabled), cache entries without expiry, MCP tool specs (current version, versions) and "
+        "servers (current / released value, history); compared through the public query messages (+ two read-only "
+        "hooks: sequence counters, registry dump); at every restart the FULL dumps before and after are compared",
+        "MCP: tool versions and server value ids are fresh numbers (as the console draws them from sequences); "
+        "at most ten publishes per server (the history bound of the code is not reached)",
         "compaction is sequential with applies in the harness (the non-atomic capture is shown at model level only)",
     ]
     shutil.rmtree(sc, ignore_errors=True)
     return c.finish(
         rule="behaviours = TLC simulation of StateMachine.tla (kind-first wrapper) ending in a restart, sorted so that "
              "behaviours with compaction / interrupted snapshot attempt before a restart come first; replayed on a mini "
-             "node (restart = new OS process); after EVERY step the served state (configs with history, namespaces, users, "
-             "sequences) is compared with the spec and at every restart with the dump taken before the stop; plus "
-             "seeded random histories with compactions and restarts validated by TLC; non-trivial = contains a compaction",
+             "node (restart = new OS process); after EVERY step the served state (configs with type / description / history, "
+             "namespaces, users, sequences, persistent instances, cache, MCP tool specs and servers) is compared with the spec and at every restart with the dump taken before the stop; plus "
+             "seeded random histories with compactions and restarts validated by TLC; plus the thin MCP cases exported "
+             "from the complete state graph of the small MCP model (a referenced tool changed / removed later, restarts inserted "
+             "after compactions); non-trivial = contains a compaction",
         checker_cmd="tools/vcheck C01 --tier %s" % tier)
 
 
